@@ -154,6 +154,26 @@ func TestStructured(t *testing.T) {
 				}
 			}
 			rec.Class("truncations")
+			// a sender that lies consistently: the image is cut AND its length word says so - or says one or two
+			// octets more or less (the value another protocol version's layout would have). Below the mandatory
+			// end decoding must still fail: the length word is part of the untrusted input.
+			if s.Hdr != ref.HdrNone {
+				lo := len(img) - 24
+				if lo < s.HeaderLen() {
+					lo = s.HeaderLen()
+				}
+				for k := lo; k < len(img); k++ {
+					for _, d := range []int{0, 1, 2, 3, 4, -1} {
+						m := append([]byte{}, img[:k]...)
+						binary.BigEndian.PutUint32(m, uint32(k+d))
+						must := k < info.MandatoryEnd
+						note := fmt.Sprintf("valid image cut at %d of %d, length word := %d (mandatory part ends at %d)", k, len(img), k+d, info.MandatoryEnd)
+						probe(t, self, m, must, note, true)
+						probe(t, disp, m, must, note+" via dispatcher", true)
+					}
+				}
+				rec.Class("truncations_with_adjusted_length_word")
+			}
 			// length / count fields overwritten by hostile constants
 			for _, f := range s.Fields {
 				o := info.Offsets[f.Name]
@@ -461,4 +481,33 @@ func TestReceiptsHostile(t *testing.T) {
 			probe(t, tg, b, false, "hostile receipt", nk > 0)
 		}
 	})
+}
+
+// TestUDHStrings: every string of 0..6 octets over the octets that carry meaning in a user-data header
+// (lengths and information-element identifiers 0..8, 0x24, 0x25, 0xff) through the concatenation-header
+// parser: every short header, every composite header, every header ending exactly at the end of the content.
+func TestUDHStrings(t *testing.T) {
+	env := rec.Env()
+	alpha := []byte{0, 1, 2, 3, 4, 5, 6, 7, 8, 0x24, 0x25, 0xff}
+	idx := 0
+	for l := 0; l <= 6; l++ {
+		cnt := 1
+		for i := 0; i < l; i++ {
+			cnt *= len(alpha)
+		}
+		for x := 0; x < cnt; x++ {
+			idx++
+			if !env.Mine(idx) {
+				continue
+			}
+			in := make([]byte, l)
+			y := x
+			for i := 0; i < l; i++ {
+				in[i] = alpha[y%len(alpha)]
+				y /= len(alpha)
+			}
+			probe(t, "ParseLongSmsContent", in, false, "user-data-header octets", l >= 3)
+		}
+	}
+	rec.Exhaustive("every string of 0..6 octets over {0..8, 0x24, 0x25, 0xff} through ParseLongSmsContent")
 }
